@@ -63,6 +63,12 @@ JoinCase(lay, o, m, Lraw, Rraw) ==
               ELSE [j \in 1..Len(LHdr(lay)) |-> <<"L", LHdr(lay)[j]>>]
                    \o [j \in 1..Len(RValIdx(lay)) |-> <<"R", RHdr(lay)[RValIdx(lay)[j]]>>],
       pairs |-> pairs,
+      \* hash joins: rows in the order of the streamed side (right for "right", else left),
+      \* partners in table order
+      hrows |-> LET hp == SetToSortSeq(RelJoinSet(o, LK, RK), LAMBDA p, q :
+                            IF o = "right" THEN p[2] < q[2] \/ (p[2] = q[2] /\ p[1] < q[1])
+                            ELSE p[1] < q[1] \/ (p[1] = q[1] /\ p[2] < q[2]))
+                IN [i \in 1..Len(hp) |-> IF anti THEN L[hp[i][1]] ELSE Assemble(hp[i], lay, L, R, m)],
       rows |-> [i \in 1..Len(pairs) |->
                   IF anti THEN L[pairs[i][1]] ELSE Assemble(pairs[i], lay, L, R, m)],
       keys |-> [i \in 1..Len(pairs) |-> PairKeyOf(pairs[i], LK, RK)]]
@@ -113,6 +119,14 @@ CrossCases == {CrossCase(<<t1, t2>>, m) : t1, t2 \in XTables, m \in {0, 2}}
 
 ASSUME ndJsonSerialize(IOEnv.OUT, SetToSeq(RectCases) \o SetToSeq(DiffCases) \o SetToSeq(RagCases) \o SetToSeq(CompCases))
 ASSUME ndJsonSerialize(IOEnv.OUT2, SetToSeq(CrossCases))
+
+\* lookups (C07): key -> positions of all its rows in table order; dup = some key repeats
+PositionsOf(ks, k) == SelectSeq([j \in 1..Len(ks) |-> j], LAMBDA j : ks[j] = k)
+LookupCase(ks) == [keys |-> ks,
+                   groups |-> SetToSeq({<<k, PositionsOf(ks, k)>> : k \in Range(ks)}),
+                   dup |-> \E a, b \in 1..Len(ks) : a # b /\ ks[a] = ks[b]]
+ASSUME ndJsonSerialize(IOEnv.OUT3, SetToSeq({LookupCase(ks) : ks \in SeqsUpTo(KV, 4)})
+                                   \o SetToSeq({LookupCase(ks) : ks \in SeqsUpTo(CKeys, 3)}))
 VARIABLE x
 Init == x = 0
 Next == FALSE /\ UNCHANGED x
